@@ -15,7 +15,8 @@ ASSUMPTIONS = ["the client half-closes after sending, so 'never hang' is observa
 BAD_LINE = [b"GET /x", b"GET", b"", b"GET /x HTTP/1.2", b"GET /x http/1.1", b"GET /x HTTP/1.1x", b"GET /x HTTP/11", b"GET /x FOO",
             b"GET /x HTTP/1.", b"GET /x  HTTP/1.1", b"GET /x HTTP/2", b"GET /x HTTP/4.0", b"/x HTTP/1.1", b"GET\t/x\tHTTP/1.1",
             b"GET /x HTTP/1.01", b"GET /x HTTP/01.1", b"GET /x HTTP/+1.1", b"GET /x HTTP/1.+1", b"GET /x HTTP/2.00", b"GET /x HTTP/1.1.1",
-            b"GET /x HTTP/ 1.1", b"GET /x HTTP/1,1", b"GET /x HTTP/-1.1", b"GET /x HTTPS/1.1"]
+            b"GET /x HTTP/ 1.1", b"GET /x HTTP/1,1", b"GET /x HTTP/-1.1", b"GET /x HTTPS/1.1",
+            b"GET HTTP/1.1", b"POST HTTP/1.0", b" HTTP/1.1", b"GET /a b HTTP/1.1", b"HTTP/1.1"]
 NO_COLON = [b"NoColonHere", b"Host example.com", b"X-A=1", b"novalue"]
 NON_ASCII_LINE = [b"G\xc3\xa9T /x HTTP/1.1", b"GET /\xff HTTP/1.1", b"GET /x HTTP/1.1\x80"]
 NON_ASCII_HDR = [b"X-A: caf\xc3\xa9", b"X-\xe9: 1", b"\x80: 1"]
